@@ -13,6 +13,24 @@ BASE_VERIFY_FNS = ["verify_label", "verify_existence", "verify_existence_with_va
 TN = "TreeNodeWithPreviousValue."
 SM = "StorageManager."
 PROPS = {
+    "C12": {
+        "verus": ["directory_publish"],
+        "search": True,
+        "always_search": True,
+        "bounded_search": [{"obligation": "replay/c12#overtaken_on_clone",
+                            "bound": "ONE deterministic interleaving of two publish calls on clones of one directory (the later-starting call is overtaken between its read of the epoch record and the start of its "
+                                     "transaction), with and without the object cache, both configurations. Other interleavings are not explored"}],
+        "scope": "partial (the single-call obligations the serialisation argument rests on; schedules themselves are outside this family): in the transactional tail of Directory::publish the batch - prepared against the "
+                 "epoch read at the start of the call - is handed to batch_insert_nodes only after the epoch record was read AGAIN, bypassing the cache, by a call whose transaction had begun, and showed that same epoch "
+                 "(permission epoch_confirmed, granted only from such a read); otherwise the transaction is rolled back and the call fails; a refused begin_transaction fails the call before any write; an epoch other "
+                 "than the current one is announced only after an accepted commit. BOUNDED (never counted as proved): the overtaking interleaving on clones - each call fails without effect or takes effect as a "
+                 "whole, successful calls get distinct consecutive epochs, every returned (epoch, hash) pair is what the audit chain verifies against. Not decided: that begin_transaction is an atomic test-and-set "
+                 "shared by clones (Arc<AtomicBool> behind &self), any other interleaving, instances that do not share a storage manager.",
+        "trusted": ["knowledge tokens (txn_begun, fresh_epoch_read, epoch_confirmed, rolled_back, commit_accepted) are handed out only by the postconditions of the external calls named after them; they cannot express the "
+                    "ORDER of begin_transaction and the re-read - both are in the verified segment, in that order in the text",
+                    "R-SEGMENT: the verified text is a suffix of publish; Directory is a model struct"],
+        "assumed": [],
+    },
     "C13": {
         "verus": [("tree_node", [TN + "determine_node_to_get", TN + "get_appropriate_tree_node_from_storage", "TreeNode.get_from_storage", "TreeNode.get_child_label", "TreeNode.get_child_node"]),
                   ("directory_lookup", ["Directory.poll_for_azks_changes", "Directory.lookup", "Directory.batch_lookup", "Directory.key_history__head", "Directory.key_history__tail",
